@@ -423,8 +423,8 @@ func TestC15Enum(t *testing.T) {
 		return hist.Spec{Parent: parent, Bits: bits, Version: 1, Nonce: uint32(i), Time: 1600000000 + uint32(i), Merkle: uint64(i + 1)}
 	}
 	trees := []tree{
-		{[]hist.Spec{sp(-1, 0x1d00ffff, 0), sp(-1, 0x1c00ffff, 1)}, []int{0, 1}},                                           // two competing children of genesis
-		{[]hist.Spec{sp(-1, 0x1d00ffff, 0), sp(0, 0x1d00ffff, 1)}, []int{0, 1}},                                             // parent and child in different submitters
+		{[]hist.Spec{sp(-1, 0x1d00ffff, 0), sp(-1, 0x1c00ffff, 1)}, []int{0, 1}},                                                   // two competing children of genesis
+		{[]hist.Spec{sp(-1, 0x1d00ffff, 0), sp(0, 0x1d00ffff, 1)}, []int{0, 1}},                                                    // parent and child in different submitters
 		{[]hist.Spec{sp(-1, 0x1d00ffff, 0), sp(-1, 0x1d00ffff, 1), sp(0, 0x1d00ffff, 2), sp(1, 0x1c00ffff, 3)}, []int{0, 1, 0, 1}}, // two branches racing
 		{[]hist.Spec{sp(-1, 0x1d00ffff, 0), sp(0, 0x1d00ffff, 1), sp(-1, 0x1c00ffff, 2), sp(2, 0x1d00ffff, 3)}, []int{0, 0, 1, 1}}, // reorg while the other extends
 	}
